@@ -510,7 +510,7 @@ func c03sDriverPath() string {
 	if err != nil {
 		return ""
 	}
-	p := filepath.Join(filepath.Dir(exe), "..", "..", "lean", ".lake", "build", "bin", "mgpudriver")
+	p := filepath.Join(filepath.Dir(exe), "..", "..", "lean", ".lake", "build", "bin", "drv_c03")
 	if _, err := os.Stat(p); err != nil {
 		return ""
 	}
